@@ -43,11 +43,26 @@ TICC_MODELS = {"quick": [("MC_TiccLoop", "MC_TiccLoop_small.cfg"), ("MC_TiccLoop
                             ("MC_TiccLoop", "MC_TiccLoop_m2.cfg"), ("MC_TiccLoop", "MC_TiccLoop_k3.cfg")]}
 
 
+def proofs(rep, module):
+    """TLAPS proofs (unbounded: every T, K, limit): all obligations must be proved."""
+    n, ok, tail = tlc.tlaps(module)
+    rep.notes[f"tlaps_{module}_obligations"] = n
+    if not ok:
+        if "status:failed" in tail or "obligations failed" in tail or "obligation failed" in tail:
+            rep.violation("proof:" + module, {"tlapm": tail}, "an obligation of the unbounded safety proof is not proved")
+        else:
+            raise common.MachineryError(f"tlapm failed on {module}:\n{tail[-1500:]}")
+    rep.cov["states_explored"] = rep.cov.get("states_explored", 0)
+    return n
+
+
 def scripted_extra(pid, need=None):
     """The spec -> code direction for the loop: label scripts from TiccLoop behaviours replayed into the real loop."""
     def extra(rep, trs, tier):
         from .. import drv_scripts
         drv_scripts.validate(rep, pid, tier, **({} if need is None else {"need": need}))
+        if pid == "C09":
+            proofs(rep, "LoopCoreProofs")
     return extra
 
 
